@@ -6,6 +6,11 @@ cd "$(dirname "$0")"
 export PATH="/opt/veriftools/lean/bin:$HOME/.cargo/bin:$PATH"
 export CARGO_NET_OFFLINE=true
 (cd harness && cargo build --offline 2>&1 | tail -2)
+# second build configuration (optimised, no debug assertions, AddressSanitizer when the nightly toolchain is there);
+# tools/run_check.py rebuilds it from /repo's working tree on every run, this only warms the cache
+(cd harness && RUSTFLAGS=-Zsanitizer=address CARGO_TARGET_DIR=target/cfg cargo +nightly build --offline --release \
+    --target x86_64-unknown-linux-gnu 2>&1 | tail -1) \
+  || (cd harness && CARGO_TARGET_DIR=target/cfg cargo build --offline --release 2>&1 | tail -1) || true
 OUT=$(cd harness && cargo build --offline --message-format=json 2>/dev/null | python3 -c "
 import sys, json
 o = None
